@@ -54,6 +54,8 @@ type ContractSet struct {
 	specs     map[string]*SpecFn
 	templates map[string][]string
 	ufuns     map[string]uFun
+	dbInv     *rNode
+	dbInvSrc  string
 	smt       []string // extra SMT prelude lines (declarations and axioms of the spec vocabulary)
 	smtX      []string // same, only included when the xattr vocabulary is in use
 	file      string
@@ -79,7 +81,7 @@ func loadContracts(path string) (*ContractSet, error) {
 	var items []item
 	keywords := map[string]bool{"fn": true, "spec": true, "requires": true, "ensures": true, "mustfail": true, "cover": true,
 		"let": true, "modular": true, "flag": true, "loop": true, "nullable": true, "template": true, "use": true, "smt": true,
-		"smtx": true, "fun": true, "funx": true, "end": true, "variant": true, "onpanic": true, "onany": true}
+		"smtx": true, "dbinvariant": true, "fun": true, "funx": true, "end": true, "variant": true, "onpanic": true, "onany": true}
 	for i, raw := range strings.Split(string(data), "\n") {
 		t := strings.TrimSpace(raw)
 		if !strings.HasPrefix(t, "//@") {
@@ -153,6 +155,15 @@ func loadContracts(path string) (*ContractSet, error) {
 		case "template":
 			curTemplate = rest
 			cur = nil
+		case "dbinvariant":
+			// dbinvariant <expr over r>: holds for every row whenever the tables are havocked (assumed), because every
+			// mutator under contract proves it for the row it addresses and leaves the other rows alone
+			n, err := parseRSL(rest)
+			if err != nil {
+				return fmt.Errorf("%s:%d: %v", path, line, err)
+			}
+			cs.dbInv = n
+			cs.dbInvSrc = rest
 		case "smt":
 			cs.smt = append(cs.smt, rest)
 		case "smtx":
